@@ -18,6 +18,7 @@ class Live:
         self.cons = list(cons or [])
         self.added_asts = []  # every constraint object handed to add() (C16 membership)
         self.tainted = False
+        self.poisoned = False  # holds a constraint the backend cannot translate: answers are judged for soundness only
         self.label = label
 
 
@@ -90,6 +91,19 @@ class Run:
                 s.add(asts)
                 lv.cons += st["cons"]
                 outcome = ("ok", None)
+            elif op == "add_untranslatable":
+                # a constraint over a variable of its own that the Z3 backend has no translation for (an abstract-domain
+                # operator / a string predicate the backend does not implement): whatever the solver does with it, later
+                # answers must not contradict the constraints it does understand
+                pz = claripy.BVS("poison8", 8, explicit_name=True)
+                if st.get("how") == "strisdigit":
+                    bad = claripy.StrIsDigit(claripy.StringS("poisonstr", 4, explicit_name=True))
+                else:
+                    bad = pz.union(claripy.BVV(1, 8)) == 1
+                self.keep.append(bad)
+                lv.poisoned = True
+                s.add([bad])
+                outcome = ("ok", None)
             elif op == "satisfiable":
                 outcome = ("ok", s.satisfiable(extra_constraints=extra, **self.qkw))
             elif op == "eval":
@@ -119,6 +133,7 @@ class Run:
                 self.live.append(Live(nb, lv.cons, label=f"s{len(self.live)}"))
                 self.live[-1].added_asts = list(lv.added_asts)
                 self.live[-1].tainted = lv.tainted  # a copy of a state the reference does not know is not known either
+                self.live[-1].poisoned = lv.poisoned
                 outcome = ("ok", None)
             elif op == "split":
                 parts = s.split()
@@ -175,11 +190,89 @@ class Run:
             lv.tainted = True
         self.judge(st, lv, outcome)
 
+    def judge_sound_only(self, st, outcome, a, sat):
+        """the solver holds a constraint nobody can translate: an error is the expected answer; an answer that is given
+        must still be possible under the constraints that are understood (a is the reference over those)"""
+        res = self.res
+        op = st["op"]
+        kind = outcome[0]
+        res.count("poisoned_answers_judged")
+        if kind == "raise":
+            res.count("poisoned_query_raised_claripy_error")
+            return
+        if kind == "raise-other":
+            self.viol(st, "query-raised-non-claripy-exception", observed=list(outcome))
+            return
+        if kind == "unsat-error":
+            res.count("poisoned_unsat_error")
+            return
+        val = outcome[1]
+        res.count("poisoned_query_answered")
+
+        def symbolic(e):
+            return bool(bvsem.variables(e)) and self.b(e).symbolic
+
+        if op == "satisfiable":
+            if val is True and not sat:
+                self.viol(st, "satisfiable-true-although-understood-constraints-unsat", observed=val)
+        elif op == "eval":
+            e = st["e"]
+            if not symbolic(e):
+                return
+            if not sat:
+                if len(val):
+                    self.viol(st, "eval-returned-values-on-unsat", observed=list(val))
+                return
+            a = a._with([e])
+            if a.models is not None:
+                feas = a.values(e)
+                bad = [v for v in val if v not in feas]
+                if bad:
+                    self.viol(st, "eval-infeasible-value", observed=list(val), infeasible=bad, feasible=sorted(feas)[:40], note="solver holds an untranslatable constraint")
+        elif op == "batch_eval":
+            es = st["es"]
+            if not all(symbolic(e) for e in es):
+                return
+            if not sat:
+                if len(val):
+                    self.viol(st, "batch_eval-returned-values-on-unsat", observed=val)
+                return
+            a = a._with(es)
+            if a.models is not None:
+                feas = a.tuples(es)
+                bad = [t for t in val if tuple(t) not in feas]
+                if bad:
+                    self.viol(st, "batch_eval-infeasible-tuple", observed=val, infeasible=bad, note="solver holds an untranslatable constraint")
+        elif op in ("min", "max"):
+            e = st["e"]
+            if not symbolic(e):
+                return
+            if not sat:
+                self.viol(st, f"{op}-returned-value-on-unsat", observed=val)
+                return
+            a = a._with([e])
+            if a.models is not None and isinstance(val, int):
+                w = bvsem.width(e)
+                if (val & ((1 << w) - 1)) not in a.values(e):
+                    self.viol(st, f"{op}-infeasible-value", observed=val, feasible=sorted(a.values(e))[:40], note="solver holds an untranslatable constraint")
+        elif op == "solution":
+            e = st["e"]
+            if val is True and symbolic(e):
+                if not sat or a.feasible(e, st["v"]) is False:
+                    self.viol(st, "solution-true-for-infeasible-value", observed=val)
+
     # ------------------------------------------------------------------ oracle
     def judge(self, st, lv, outcome):
         op = st["op"]
         extra_d = st.get("extra", [])
         res = self.res
+        if op == "add_untranslatable":
+            res.count("untranslatable_adds:" + outcome[0])
+            return
+        if lv.poisoned and op in ("add", "simplify", "downsize", "branch", "pickle"):
+            if outcome[0] == "raise-other":
+                self.viol(st, f"{op}-raised", observed=list(outcome))
+            return
         if op in ("add", "simplify", "downsize", "branch", "split", "combine", "merge", "pickle"):
             if outcome[0] != "ok":
                 if self.mode == "none":
@@ -203,6 +296,9 @@ class Run:
             return
         res.count("ref_sat" if sat else "ref_unsat")
         kind = outcome[0]
+        if lv.poisoned:
+            self.judge_sound_only(st, outcome, a, sat)
+            return
         if kind in ("raise", "raise-other"):
             if self.mode == "approx":
                 # an approximate frontend that declines to answer excludes nothing; counted, not judged
